@@ -930,10 +930,12 @@ def is_ssa_path(path, nterms):
             if (nterms is not None) and (i >= nterms):
                 # indices beyond nterms -> ssa
                 return True
-            seen.add(i)
             if i in seen:
                 # id reused -> not ssa
                 return False
+            seen.add(i)
+    # no id was ever reused
+    return True
 
 
 def optimize_simplify(inputs, output, size_dict, use_ssa=False):
